@@ -51,6 +51,18 @@ def prove_all(rlimit=20_000_000):
         nonneg = z3.ForAll([t], z3.Implies(z3.And(0 <= t), z3.Select(arr, t) >= 0))
         vcs += [("lemma.lsum-nonneg#base", d + [nonneg], f(arr, 0) >= 0),
                 ("lemma.lsum-nonneg#step", d + [nonneg, n >= 0, f(arr, n) >= 0], f(arr, n + 1) >= 0)]
+    # dB <-> decimal round trip from the two function contracts (c_state.py) and the A1 axioms for 10**x / log10
+    R = z3.RealSort()
+    p10, lg = z3.Function("pow10", R, R), z3.Function("log10", R, R)
+    x, y = z3.Reals("x y")
+    ax = [z3.ForAll([y], lg(p10(y)) == y), z3.ForAll([y], z3.Implies(y > 0, p10(lg(y)) == y)), z3.ForAll([y], p10(y) > 0)]
+    absx = z3.If(x >= 0, x, -x)
+    dec = 1 - p10(-absx / 10)                 # post.value of db_loss_to_decimal
+    back = -10 * lg(1 - dec)                  # post.value of decimal_to_db_loss
+    vcs.append(("lemma.db-roundtrip", ax, back == absx))
+    l = z3.Real("l")
+    db = -10 * lg(1 - l)
+    vcs.append(("lemma.decimal-roundtrip", ax + [0 <= l, l < 1, db >= 0], 1 - p10(-z3.If(db >= 0, db, -db) / 10) == l))
     for name, hyps, goal in vcs:
         s = z3.Solver()
         s.set("rlimit", rlimit)
